@@ -13,7 +13,6 @@ def pred_alive(nact_flags, nreq, flags):
 
 
 KF_CLOSE_BATCH = "loop_alive_false_inside_close_cb_batch"
-KF_STALE_RUN = "uv_run_default_stale_result_after_stop_in_initial_timer_pass"
 KF_PENDING = "loop_alive_true_with_only_pending_queue"
 
 
@@ -44,11 +43,6 @@ def monitor(case, line):
                 return "uv_loop_close()=%s but busy=%s at %s" % (toks[k + 1][1:], busy, tok)
         if k > 0 and toks[k - 1][0] == "u":
             if (toks[k - 1] == "u1") != want:
-                j = k - 2
-                while j >= 0 and toks[j][0] not in "gw":
-                    j -= 1
-                if toks[k - 1] == "u1" and not want and j >= 0 and toks[j].startswith("g0"):
-                    return "KNOWN:" + KF_STALE_RUN
                 return "uv_run() returned %s but outstanding-work predicate is %s at %s" % (toks[k - 1][1], want, tok)
     return None
 
